@@ -105,3 +105,9 @@ Proof. repeat split; vm_compute; reflexivity. Qed.
 Example link_score_zero_width : link_score (Some 0) 100 50 2929 = Some 158 /\ link_score None 100 50 2929 = Some 158
   /\ link_score (Some 80) 100 50 2929 = Some 79 /\ link_score (Some 1) 65535 1 0 = Some 32000.
 Proof. repeat split; vm_compute; reflexivity. Qed.
+
+(* ---- COLR variation index at the 16- and 32-bit boundaries ---- *)
+Example colr_var_index_boundaries :
+  colr_var_index false 65533 3 = Some 0 /\ colr_var_index false 131071 1 = Some 0
+  /\ colr_var_index true 4294967294 3 = Some 1 /\ colr_var_index false 4294967294 3 = Some 1.
+Proof. repeat split; vm_compute; reflexivity. Qed.
